@@ -50,6 +50,14 @@ def foreign_event(label, raw, tail, wellformed=False):
             p = Packet(buf)
             o1 = bytes(p.__bytearray__())
             e.update({'accepted': True, 'remaining': octets(buf), 'o1': octets(o1)})
+            if type(p).__name__ == 'SignatureV4':
+                # field values as the parsed OBJECT presents them (the octets are written back verbatim, so only the object can show a
+                # value that was lost on the way in): subpacket types and critical bits of both areas
+                try:
+                    e['objsubs'] = {'h': [[int(sp_.header.typeid) & 0x7F, bool(sp_.header.critical)] for sp_ in p.subpackets._hashed_sp.values()],
+                                    'u': [[int(sp_.header.typeid) & 0x7F, bool(sp_.header.critical)] for sp_ in p.subpackets._unhashed_sp.values()]}
+                except Exception:
+                    pass
             try:
                 b2 = bytearray(o1)
                 p2 = Packet(b2)
